@@ -108,7 +108,7 @@ def _drive(cases, wd, name, nproc=NPROC):
         if p.returncode != 0:
             print(err[-3000:])
             if p.returncode == 3:
-                raise vlib.ToolError("a battery command of drive_governance does not parse")
+                raise vlib.ToolError("drive_governance: a battery command does not parse / the population is not accepted")
             # a panic outside the guarded command execution (population / control plane) is data too
             mism.append({"mismatch": True, "part": 0, "case": -1, "fam": "driver", "cmd": "driver aborted",
                          "reason": "drive_governance aborted (panic outside a session command)", "tail": err[-1500:],
@@ -132,6 +132,11 @@ def _base(cmd):
     return re.sub(r"-\d+$", "", cmd)
 
 
+def _ids(v):
+    """The element indices (#k) an answer mentions."""
+    return {int(x) for x in re.findall(r'"#(\d+)"', json.dumps(v))}
+
+
 def classify(m, case):
     """The class of one mismatch, or None when it cannot be attributed (a plain violation)."""
     if m.get("part") == 2:
@@ -148,16 +153,22 @@ def classify(m, case):
     if cmd.startswith("snapshot-token") and want.get("err") == "NotAuthorized" and "ok" in got \
             and "read" in held and "read_history" not in held:
         return "snapshot_token_skips_read_history"
-    if (cmd.startswith("as-of") or cmd.startswith("snapshot-token")) and "ok" in got and "ok" in want:
+    if cmd.startswith("as-of") and "ok" in got and got == m.get("asbuilt_want"):
+        # exactly the answer of a read that judges the element just written by the block it carried then
         return "as_of_judges_historical_governance_block"
     if cmd == "describe-primer" and m.get("p") == "own" and "ok" in got and "ok" in want \
             and want["ok"].get("withheld") and not got["ok"].get("withheld"):
         return "denied_owner_still_gets_space_counts"
-    if m.get("pop") == "B" and cmd.startswith("search") and not m.get("masked"):
+    readable = set(m.get("readable", []))
+    if m.get("pop") == "B" and cmd.startswith("search") and not m.get("masked") and "err" not in got \
+            and _ids(got) <= readable and _ids(got) < _ids(want):
         return "search_window_filled_by_hidden_hits"
-    if m.get("masked") and cmd.startswith("search") and "err" not in got and "err" not in want:
+    hidden = set(m.get("hide_name", [])) | set(m.get("hide_attrs", []))
+    if m.get("masked") and cmd.startswith("search") and "err" not in got and "err" not in want \
+            and _ids(got) <= readable and (_ids(got) - _ids(want)) <= hidden:
         return "search_probes_masked_field"
-    if m.get("masked") and m.get("hide_name") and cmd in ("name-matcher", "union") and "ok" in got and "ok" in want:
+    if m.get("masked") and cmd in ("name-matcher", "union") and "ok" in got and "ok" in want \
+            and _ids(got) <= readable and (_ids(got) - _ids(want)) <= set(m.get("hide_name", [])):
         return "indexed_matcher_probes_masked_field"
     return None
 
@@ -211,8 +222,11 @@ def _check(tier, wd):
             e = out["classes"].setdefault(cl, {"count": 0, "cases": set(), "example": None})
             e["count"] += 1
             e["cases"].add(m["case"])
-            if e["example"] is None:
+            # prefer an example that discloses something (an id the oracle does not expect)
+            leaks = bool(_ids(m.get("got")) - _ids(m.get("want")))
+            if e["example"] is None or (leaks and not e.get("example_leaks")):
                 e["example"] = (m, case)
+                e["example_leaks"] = leaks
     return out
 
 
